@@ -24,7 +24,8 @@ MINIMUM = {"ids_allocated": 2000, "cycles": 1500, "transfers": 150, "sweep_fired
 SHARD_TIMEOUT = {"quick": 120, "thorough": 2400}
 
 SHAPES = ["close_local", "close_remote", "end_of_exec", "drop_local", "drop_remote", "error", "callback", "callback_drop",
-          "remote_status", "nested_transfer", "exec_error"]
+          "remote_status", "nested_transfer", "exec_error", "reply_channel_both_dropped", "callback_then_local_close",
+          "exec_sets_callback_on_own_channel"]
 
 
 def shards(tier, seed):
@@ -320,6 +321,39 @@ def one_cycle(res, lab, rng, shape, n):
         from vlib import pairs
 
         pairs.wait_until(lambda: "end" in got, 10)
+    elif shape == "reply_channel_both_dropped":
+        # X creates a reply channel, listens on it by callback, hands it over nested in a container and drops its object;
+        # Y answers on it and drops its end without ever calling close()
+        from vlib import pairs
+
+        got = []
+        c = gw.newchannel()
+        c.setcallback(got.append, endmarker="end")
+        lab.control_local.send({"reply": (c,)})
+        del c
+        gc.collect()
+        rc = lab.control_remote.receive(10)["reply"][0]
+        rc.send(("answer", n))
+        del rc
+        gc.collect()
+        if not pairs.wait_until(lambda: "end" in got, 6.0) or got != [("answer", n), "end"]:
+            res.violation("reply-channel-endmarker-withheld", f"cycle {n}: callback saw {got!r}")
+    elif shape == "callback_then_local_close":
+        got = []
+        lc, rc = lab.pair_newchannel_local()
+        lc.setcallback(got.append, endmarker="end")
+        rc.send(n)
+        from vlib import pairs
+
+        pairs.wait_until(lambda: n in got, 6.0)
+        lc.close()
+        if got != [n, "end"]:
+            res.violation("callback-endmarker-missing-after-local-close", f"cycle {n}: {got!r}")
+        rc.waitclose(10)
+    elif shape == "exec_sets_callback_on_own_channel":
+        ch = gw.remote_exec("seen = []\nchannel.setcallback(seen.append, endmarker=None)\nchannel.send('ready')")
+        assert ch.receive(10) == "ready"
+        ch.waitclose(10)  # the body returns at once: execnet closes the channel (and must forget its callback)
     elif shape == "remote_status":
         st = gw.remote_status()
         assert st.numchannels >= 0
